@@ -98,19 +98,53 @@ def r2_truncate(ctx, repo):
             tags[s.targets[0].id] = tag_of(s.value, tags, size, problems)
         elif isinstance(s, ast.Return):
             ret = tag_of(s.value, tags, size, problems) if s.value is not None else None
+        elif isinstance(s, ast.For) and isinstance(s.target, ast.Name) and isinstance(s.iter, ast.Name) and tags.get(s.iter.id, ("?",))[0] in ("INPUT", "DEDUP"):
+            # dictionary-based de-duplication:  d.setdefault(KEY, x)  /  d[KEY] = x  for x in population
+            lv = s.target.id
+            key = dct = None
+            ldefs = {}
+            for b in s.body:
+                if isinstance(b, ast.Assign) and isinstance(b.targets[0], ast.Name):
+                    ldefs[b.targets[0].id] = b.value
+                for c in calls_in(b):
+                    if isinstance(c.func, ast.Attribute) and c.func.attr == "setdefault" and len(c.args) == 2 and access_path(c.args[1]) == lv:
+                        key, dct = c.args[0], access_path(c.func.value)
+                if isinstance(b, ast.Assign) and isinstance(b.targets[0], ast.Subscript) and access_path(b.value) == lv:
+                    key, dct = b.targets[0].slice, access_path(b.targets[0].value)
+            if key is None:
+                problems.append(("inconclusive", "statement not understood: %s" % text(s).split("\n")[0]))
+            else:
+                kt = text(canon(key, ldefs))
+                coarse = any(k_ in kt for k_ in ("round(", "int(", "//", "floor(", "format(", "%"))
+                exact = kt in ("tuple(%s.vector)" % lv, lv, "hash(%s)" % lv, "tuple(x for x in %s.vector)" % lv)
+                if coarse:
+                    problems.append(("violated", "designs are de-duplicated by the key %s, which merges designs that differ by less than the rounding step although they are different design points (equality is 1e-10): distinct designs are dropped and fewer than min(k, distinct) survive" % kt))
+                    tags[dct] = ("BADDEDUP",)
+                elif exact:
+                    tags[dct] = ("DEDUP", tags[s.iter.id])
+                else:
+                    problems.append(("inconclusive", "de-duplication key %s not recognised" % kt))
         elif isinstance(s, ast.Expr) and is_method_call(s.value, "sort") and isinstance(s.value.func.value, ast.Name):
             nm = s.value.func.value.id
             tags[nm] = sort_tag(tags.get(nm), s.value.keywords, problems)
         else:
             problems.append(("inconclusive", "statement not understood: %s" % text(s).split("\n")[0]))
+    if any(isinstance(c_, ast.Call) and (access_path(c_.func) or "").endswith("groupby") for c_ in ast.walk(fn)):
+        problems.append(("violated", "duplicates are removed with itertools.groupby, which only merges ADJACENT equal designs: copies of one design that are not neighbours in the sorted order both survive"))
     if ret is None:
         problems.append(("inconclusive", "no returned value"))
+    elif ret[0] == "?":
+        problems.append(("inconclusive", "the returned value %s is built by constructs outside the order algebra" % (ret,)))
     elif ret[0] != "PREFIX":
         problems.append(("violated", "the result is not the first `%s` members of the ranked, de-duplicated population (%s)" % (size, ret,)))
     else:
         inner = ret[1]
-        if inner[0] != "SORTED":
+        if inner[0] == "?":
+            problems.append(("inconclusive", "the truncated list is built by constructs outside the order algebra"))
+        elif inner[0] != "SORTED":
             problems.append(("violated", "the truncated list is not sorted by (front, crowding): %s" % (inner,)))
+        elif inner[1][0] == "?":
+            problems.append(("inconclusive", "the sorted value is not recognisably the (de-duplicated) input population"))
         elif inner[1][0] != "DEDUP":
             problems.append(("violated", "the population is not de-duplicated with set() before ranking: a design could survive twice"))
     viol = [m for k, m in problems if k == "violated"]
@@ -159,6 +193,9 @@ def tag_of(v, tags, size, problems):
             inner = tag_of(v.args[0], tags, size, problems)
             return ("DEDUP", inner) if inner[0] in ("INPUT", "DEDUP") else ("?",)
         if nm in ("list", "tuple") and len(v.args) == 1:
+            a0 = v.args[0]
+            if isinstance(a0, ast.Call) and isinstance(a0.func, ast.Attribute) and a0.func.attr == "values" and access_path(a0.func.value) in tags:
+                return tags[access_path(a0.func.value)]
             return tag_of(v.args[0], tags, size, problems)
         if nm == "sorted" and v.args:
             return sort_tag(tag_of(v.args[0], tags, size, problems), v.keywords, problems)
